@@ -192,8 +192,9 @@ class Check(object):
         for r in unknown:
             print('UNKNOWN: %s (%s)' % (r.ob.name, r.reason[:200]))
         for r in aux_failed:
-            print('FAILED-NO-WITNESS: %s (%s; %s)' % (r.ob.name, r.status,
-                                                      r.reason[:120]))
+            print('FAILED-NO-WITNESS: %s (%s; %s) %s' % (
+                r.ob.name, r.status, r.reason[:80],
+                {k: v for k, v in r.ob.info.items() if k != 'probes'}))
         if n == 0:
             print('UNDECIDED: no obligations were generated')
             exit_code = max(exit_code, 2)
